@@ -157,3 +157,20 @@ CHECKS["C19"] = dict(
     outside=["concurrent requests: ordering, shared buffers, lifetime of strings aliasing fasthttp's recycled request buffers (cannot be encoded)",
              "kafka and nats senders"],
 )
+
+CHECKS["C20"] = dict(
+    explanation="The engine turns every index, slice, nil dereference, type assertion, division and make() executed on any path into a check. "
+                "Dedicated harnesses: all S3 route handlers with request documents that are arbitrary values of their type including absent (nil) "
+                "elements and empty lists; the backend's parsers of client strings; both aws-chunked decoders on arbitrary bytes incl. the rule that no "
+                "allocation is sized by unauthenticated input.",
+    harnesses=[
+        dict(name="H20-routes", pkgs=["./s3api"], entry="s3api.VfCrashRoutes", redirects="spec/redirects_ctrl_stub.json", reach=["returned", "handler-entered"],
+             key_trace=['"route=']),
+        dict(name="H20-parsers", pkgs=["./backend"], entry="backend.VfCrashParsers", native=True, reach=["returned"]),
+        dict(name="H20-chunk", pkgs=["./s3api/utils"], entry="s3api/utils.VfCrashChunk", redirects="spec/redirects.json", pkgname="utils", native=True, reach=["returned"]),
+    ],
+    assumptions=["backend results follow the producer's contract (non-nil outputs on success)", "fiber context / XML decoding are models",
+                 "callers pass non-empty copy-source headers to ParseCopySource"],
+    outside=["liveness/latency beyond loop termination", "the HTTP layer (fiber/fasthttp parsing)", "posix backend entry points (FS model: not built yet)",
+             "panics inside un-modelled libraries"],
+)
